@@ -620,3 +620,9 @@ PROPS["C10"]["rule"] += (" apisvc: one APIService applied through the real Appli
                          "the first apply request breaking with an HTTP/2 stream error (the error on which ApplyTask retries an APIService with client-side apply), "
                          "object present or not — 24 cases against a table; the predicate: a dry-run sends no mutating request without the dry-run directive "
                          "(a client dry-run none at all) and leaves the store unchanged.")
+
+# C13 "exactly one result event per object of a prune / delete group" also for the single-object prune step driven with every
+# manager table / fault / annotation combination (domain prunestep, shared with C02)
+PROPS["C13"]["domains"].append("prunestep")
+PROPS["C13"]["rule"] += (" prunestep: the real PruneTask / Pruner / filter chain on ONE object under every combination of manager table, lifecycle annotation, "
+                         "owner, dry-run strategy and request outcome (the annotation-removal UPDATE and the DELETE each succeed, fail or hit NotFound): exactly one result event.")
